@@ -92,7 +92,9 @@ class ExprMixin:
             return r
         if o.kind != "ref":
             raise Unsupported("attribute %s of %r" % (attr, o))
-        return [(st, V("ref", st.get("attr:" + attr, o.t), self.registry.attr_hints.get(attr)))]
+        v = st.get("attr:" + attr, o.t)
+        st.assume(v < st.ctr)  # heap well-formedness: a stored reference denotes an allocated (or interned) object
+        return [(st, V("ref", v, self.registry.attr_hints.get(attr)))]
 
     def e_Subscript(self, st, node):
         def f(s, vs):
@@ -113,6 +115,7 @@ class ExprMixin:
             out = []
             for s, ok in self.fork(st, z3.And(i2 >= 0, i2 < n), "index_ok"):
                 if ok:
+                    s.assume(seq[i2] < s.ctr)
                     out.append((s, V("ref", seq[i2], self.registry.elem_hint(o))))
                 else:
                     out.append((s, Raise(self.new_exception(s, "IndexError"))))
